@@ -36,5 +36,5 @@ CHECKS = {
     "C17": K("TestC17", quick=1500, thorough=40000, level="fault_enumeration"),
     "C18": K("TestC18(K|A)", quick=250, thorough=4000),
     "C19": K("TestC19", quick=300, thorough=8000),
-    "C20": K("TestC20(Binary|Chain)?", quick=150, thorough=3000, pkg="cli"),
+    "C20": K("TestC20(Binary|Chain)?", quick=150, thorough=1200, pkg="cli"),
 }
